@@ -2562,7 +2562,7 @@ ITEMS: List[Item] = [
     Item("ValidationPass", TVAL, ["C09", "C13"], b_validation_pass),
     Item("RunValidation", TVAL, ["C09", "C13"], b_run_validation),
     Item("UnderlapValidator", TVALS, ["C10", "C13", "C11"], b_underlap_validator),
-    Item("ValidationUtils", TVU, ["C10", "C16"], b_validation_utils),
+    Item("ValidationUtils", TVU, ["C10", "C16", "C02"], b_validation_utils),
     Item("SharpCorners", TVALS, ["C10"], b_sharp_corners),
     Item("ValidatorMethods", TVALS, ["C10", "C02"], b_validator_methods),
     Item("Stacking", TVU, ["C10"], b_stacking, extra_modules=[GENERAL]),
